@@ -143,13 +143,21 @@ func scopesC07orders(thorough bool) []Scope {
 	if thorough {
 		multiCfgs = keepCfgs
 	}
-	return []Scope{
+	scs := []Scope{
 		{Name: "L-multi-orders", GS: synthGS(2, 2, [2]int64{28, 28}), Spec: lat.Spec{Points: scale(lat.Window(2, 2, 2), 4), MaxK: 4, Valid: true}, IDSets: ids3, Cfgs: multiCfgs},
 		{Name: "L-half-2-orders", GS: synthGS(2, 2, [2]int64{31, 31}), Spec: lat.Spec{Points: lat.Window(2, 2, 2), MaxK: k(3, 4), Valid: true}, IDSets: ids3, Cfgs: keepCfgs},
 		// 4x4 coarse lattice on a 2-level grid: shells with a triangular hole, shell collapsing at id 0
 		{Name: "L-holes-orders", GS: synthGS(1, 2, [2]int64{13, 13}), Spec: lat.Spec{Points: scale(lat.Window(3, 3, 1), 4), MaxK: 4, Valid: true, MaxHoles: 1, HoleMaxK: 3}, IDSets: [][]int{{0, 1}}, Cfgs: keepCfgs},
 		{Name: "C-walk-orders", GS: synthGS(2, 2, [2]int64{31, 31}), Spec: lat.Spec{Points: lat.Centres(2, 2), MinK: 1, MaxK: k(5, 7), Repeats: true}, IDSets: ids3, Cfgs: keepCfgs},
 	}
+	// the families of larger polygons (rings that split into several outer rings, holes that must be
+	// matched to one of several shells, equal pieces that cancel): the places where a choice among
+	// equal candidates can depend on an iteration order
+	for _, f := range familyScopes(thorough) {
+		f.Cfgs = keepCfgs
+		scs = append(scs, f)
+	}
+	return scs
 }
 
 func scopesC07plain(thorough bool) []Scope {
@@ -165,10 +173,6 @@ func scopesC07plain(thorough bool) []Scope {
 		Scope{Name: "L-half-2", GS: synthGS(0, 2, [2]int64{7, 7}), Spec: lat.Spec{Points: lat.Window(2, 2, 2), MaxK: k(4, 6), Valid: true}, IDSets: one},
 		Scope{Name: "L-holes-2", GS: synthGS(0, 2, [2]int64{7, 7}), Spec: lat.Spec{Points: lat.Window(2, 2, 2), MaxK: k(3, 4), Valid: true, MaxHoles: k(1, 2), HoleMaxK: 3}, IDSets: one},
 	)
-	for _, f := range familyScopes(thorough) {
-		f.Cfgs = nil
-		scs = append(scs, f)
-	}
 	return scs
 }
 
